@@ -825,3 +825,174 @@ func runPooledControlMessageReset(c *Ctx) {
 	_ = n
 }
 
+
+func init() {
+	r4doc("C29", "C29.R6", "K1: the decompressed-size budget is armed for every message")
+	round3Hooks["C29"] = append(round3Hooks["C29"], runLimitArmedPerMessage)
+	r4doc("C30", "C30.R6", "io.Reader contract: the bytes a Read returned are accounted for before its error is looked at")
+	round3Hooks["C30"] = append(round3Hooks["C30"], runReadCountsBeforeError)
+	r4doc("C31", "C31.R4", "K1: our own close frame is recorded before it is written (and can be answered)")
+	round3Hooks["C31"] = append(round3Hooks["C31"], runCloseRecordedBeforeWrite)
+}
+
+// runLimitArmedPerMessage (C29.R6): the decompressed read limit is a limit per message. NextReader wraps
+// the reader of every compressed message into a limitedReader; the budget (remaining) must be set there,
+// for that message: every store of a *limitedReader into Conn.reader is preceded, in NextReader, by a
+// store of the remaining field of that very object. A reader armed once per connection turns the limit
+// into a connection-wide budget: valid later messages are cut off with "read limit exceeded".
+func runLimitArmedPerMessage(c *Ctx) {
+	w := c.W
+	fn := w.Func("internal/websocket", "(*Conn).NextReader")
+	if !c.Anchor("C29.R6", "(*Conn).NextReader", fn) {
+		return
+	}
+	n := 0
+	for _, st := range storesToField(fn, false, "Conn", "reader") {
+		mi, ok := st.Val.(*ssa.MakeInterface)
+		if !ok || !strings.HasSuffix(typeShort(mi.X.Type()), "limitedReader") {
+			continue
+		}
+		n++
+		obj := mi.X
+		armed := false
+		EachInstr(fn, func(in ssa.Instruction) {
+			s2, ok := in.(*ssa.Store)
+			if !ok {
+				return
+			}
+			fa, ok := s2.Addr.(*ssa.FieldAddr)
+			if !ok || !fieldAddrIs(fa, "limitedReader", "remaining") {
+				return
+			}
+			if (fa.X == obj || D(fa.X) == D(obj)) && Precedes(s2, st) {
+				armed = true
+			}
+		})
+		c.Check("C29.R6", st, "the limitedReader installed for a message has its budget set for that message", armed,
+			"the budget is not re-armed when a new message starts: the inflated sizes of all compressed messages of the connection add up, and a valid later message is rejected with read limit exceeded (1009)")
+	}
+	c.Anchor("C29.R6", "installation of a limitedReader in NextReader", n >= 1)
+}
+
+// runReadCountsBeforeError (C30.R6): io.Reader may return n > 0 together with an error (io.EOF included);
+// the caller must consume those n bytes first. In the websocket package, a store that accumulates the n
+// of an io.Reader Read call is not conditional on that call's error.
+func runReadCountsBeforeError(c *Ctx) {
+	w := c.W
+	n := 0
+	for _, f := range moduleFuncs(w) {
+		if f.Pkg == nil || !strings.HasSuffix(f.Pkg.Pkg.Path(), "internal/websocket") {
+			continue
+		}
+		EachInstr(f, func(in ssa.Instruction) {
+			call, ok := in.(*ssa.Call)
+			if !ok || !call.Call.IsInvoke() || call.Call.Method.Name() != "Read" {
+				return
+			}
+			var nv, ev ssa.Value
+			for _, r := range *call.Referrers() {
+				if ex, ok := r.(*ssa.Extract); ok {
+					if ex.Index == 0 {
+						nv = ex
+					} else {
+						ev = ex
+					}
+				}
+			}
+			if nv == nil || ev == nil {
+				return
+			}
+			// accumulating stores of n: field = field + n
+			for _, r := range *nv.Referrers() {
+				add, ok := r.(*ssa.BinOp)
+				if !ok || add.Op != token.ADD {
+					continue
+				}
+				for _, rr := range *add.Referrers() {
+					st, ok := rr.(*ssa.Store)
+					if !ok {
+						continue
+					}
+					if _, isField := st.Addr.(*ssa.FieldAddr); !isField {
+						continue
+					}
+					n++
+					onErr := GuardedBy(st, func(g Guard) bool {
+						seen := map[ssa.Value]bool{}
+						var dep func(v ssa.Value, d int) bool
+						dep = func(v ssa.Value, d int) bool {
+							if v == nil || seen[v] || d > 5 {
+								return false
+							}
+							seen[v] = true
+							if v == ev {
+								return true
+							}
+							switch x := v.(type) {
+							case *ssa.BinOp:
+								return dep(x.X, d+1) || dep(x.Y, d+1)
+							case *ssa.UnOp:
+								return dep(x.X, d+1)
+							case *ssa.Phi:
+								for _, e := range x.Edges {
+									if dep(e, d+1) {
+										return true
+									}
+								}
+							}
+							return false
+						}
+						return dep(g.Cond, 0)
+					})
+					c.Check("C30.R6", st, "the bytes returned by Read are counted whatever error came with them", !onErr,
+						"a reader may hand out its last bytes together with io.EOF: counting them only when err == nil drops the tail of the message — the peer reads a truncated message and no error is reported")
+				}
+			}
+		})
+	}
+	c.Anchor("C30.R6", "accumulating stores of a Read count in the websocket package", n >= 1)
+}
+
+// runCloseRecordedBeforeWrite (C31.R4): the connection records the first close frame it sent or received
+// (first wins; the read loop records the peer's). Our own close must be recorded before it is written:
+// once it is on the wire the peer's reply can be processed — and recorded as the first, incoming close —
+// before the writer gets to record its own. Assuming the close opcode, every path from the entry of
+// WriteControl to the network write passes recordCloseCode.
+func runCloseRecordedBeforeWrite(c *Ctx) {
+	w := c.W
+	fn := w.Func("internal/websocket", "(*Conn).WriteControl")
+	if !c.Anchor("C31.R4", "(*Conn).WriteControl", fn) {
+		return
+	}
+	cv, ok := w.ConstInt("internal/websocket", "CloseMessage")
+	if !c.Anchor("C31.R4", "constant CloseMessage", ok) {
+		return
+	}
+	record := w.calleeIs("Conn.recordCloseCode")
+	if !c.Anchor("C31.R4", "recordCloseCode call in WriteControl", len(CallsIn(fn, false, record)) > 0) {
+		return
+	}
+	netWrite := func(in ssa.Instruction) bool {
+		call, ok := in.(*ssa.Call)
+		return ok && call.Call.IsInvoke() && call.Call.Method.Name() == "Write"
+	}
+	bad := PathQ{
+		Stop: instrPred(record),
+		Goal: netWrite,
+		EdgeCond: func(cond ssa.Value, outcome bool) bool {
+			b, ok := cond.(*ssa.BinOp)
+			if !ok || (b.Op != token.EQL && b.Op != token.NEQ) {
+				return true
+			}
+			_, isParam := b.X.(*ssa.Parameter)
+			k, isK := constIntOf(b.Y)
+			if !isParam || !isK || k != cv {
+				return true
+			}
+			// assume messageType == CloseMessage
+			return outcome == (b.Op == token.EQL)
+		},
+	}.FromEntry(fn)
+	c.CheckAt("C31.R4", "(*internal/websocket.Conn).WriteControl: a close frame is recorded before it is written", w.Pos(fn.Pos()), bad == nil,
+		"recorded after the write, the peer's close reply can be recorded first by the read loop: a close this side initiated is reported as initiated by the peer"+instrAt(w, bad))
+}
